@@ -430,10 +430,26 @@ func enumC15(env *EnumEnv, it *WorkItem) *EnumResult {
 		if f.name != "sqlite" {
 			continue // the CosmosDB fake answers id queries only (no Cosmos SQL engine here): see the evidence note
 		}
-		var rec func(prefix []int)
-		rec = func(prefix []int) {
-			idx++
-			if idx%it.NShards == it.Shard {
+		expired := false
+		for L := 0; L <= maxN && !expired; L++ {
+			var rec func(prefix []int)
+			rec = func(prefix []int) {
+				if len(prefix) < L {
+					for c := 0; c < 8 && !expired; c++ {
+						rec(append(prefix, c))
+					}
+					return
+				}
+				idx++
+				if idx%it.NShards != it.Shard {
+					return
+				}
+				if env.Expired() {
+					expired = true
+					res.Exhaustive = false
+					res.Notes = append(res.Notes, fmt.Sprintf("budget reached among the stores with %d plans after %d evaluations of this shard; all smaller stores were covered completely", L, res.Evaluations))
+					return
+				}
 				cfg := searchConfig{Vault: f.name, Plans: append([]int{}, prefix...)}
 				found, n := checkSearchConfig(env.T, cfg, nil)
 				res.Evaluations += n
@@ -451,14 +467,8 @@ func enumC15(env *EnumEnv, it *WorkItem) *EnumResult {
 					res.Samples = append(res.Samples, fmt.Sprintf("store %v (status=c%%4 of %v, group=c/4): %d queries, e.g. %s", cfg.Plans, searchStatuses, n, searchQueries(len(prefix))[37]))
 				}
 			}
-			if len(prefix) == maxN {
-				return
-			}
-			for c := 0; c < 8; c++ {
-				rec(append(prefix, c))
-			}
+			rec(nil)
 		}
-		rec(nil)
 	}
 	res.Notes = append(res.Notes, "CosmosDB: group/status Search cannot be decided here (the fake pager only answers id queries and there is no Cosmos SQL engine in the sandbox); this check covers sqlite")
 	return res
